@@ -72,6 +72,11 @@ Clause(i, cl, nn, old, new, seen) ==
             ELSE LET l == Moment(cl.lhs, new[cl.pi])
                      r == SAdd(RhsSum(cl.rhs, old[cl.pi], 1), cl.k)
                  IN  IF l = r THEN OK ELSE Bad(i, cl, nn, <<l, r>>)
+      [] cl.t = "recE" ->         \* E_n[lhs] = E_{n-1}[rhsp]   (rhsp: the equation's whole right-hand side)
+            IF nn = 0 THEN Skip
+            ELSE LET l == Moment(cl.lhs, new[cl.pi])
+                     r == Moment(cl.rhsp, old[cl.pi])
+                 IN  IF l = r THEN OK ELSE Bad(i, cl, nn, <<l, r>>)
       [] cl.t = "recpt" ->        \* pointwise: E[lhs(next) | st] = rhsp(st) on every store
             IF nn = 0 THEN Skip
             ELSE LET P == Tr.progs[cl.pi]
